@@ -3,8 +3,8 @@ import os, re, json, time
 import engine
 
 HARNESSES = {
-    'ut_map': ['do_find', 'do_erase', 'do_update', 'do_insert', 'do_insert_update'],
-    'ut_set': ['do_find', 'do_erase', 'do_update', 'do_insert', 'do_insert_update'],
+    'ut_map': ['do_find', 'do_erase', 'do_update', 'do_insert', 'do_insert_update', 'insert', 'erase', 'find', 'clean_expired_values'],
+    'ut_set': ['do_find', 'do_erase', 'do_update', 'do_insert', 'do_insert_update', 'insert', 'erase', 'find', 'clean_expired_values'],
     'tlru_cache': ['do_erase', 'do_prune', 'do_find', 'do_update', 'do_insert', 'do_insert_update', 'find', 'erase', 'insert'],
     'lfu_cache': ['do_erase', 'do_prune', 'do_find', 'do_update', 'do_insert', 'do_insert_update', 'erase', 'insert', 'find_with_use_count'],
     'fifo_cache': ['do_find', 'do_update', 'find'],
@@ -26,6 +26,9 @@ EXPERIMENTAL = {'fifo_cache': ['do_erase', 'do_insert', 'do_insert_update', 'era
 REGISTERED = ('lru_cache', 'mru_cache', 'rr_cache', 'fifo_cache', 'lfu_cache', 'ut_map', 'ut_set')
 
 
+# calls replaced by a contract stub (assumed contract of a repository function that is only decided in route B)
+_PR = lambda c: ['%s__do_prune:%s__do_prune_contract' % (c, c)]
+REPLACE = {c: {f: _PR(c) for f in ('insert', 'erase', 'find', 'clean_expired_values')} for c in ('ut_map', 'ut_set')}
 DYNAMIC = ('ut_map', 'ut_set')  # containers whose list grows and shrinks: cstl_ud/cstl_list.h shadows cstl_u/cstl_list.h
 
 
@@ -69,6 +72,20 @@ def run_u(unit, want_trace=False):
     if rc != 0:
         res.update(status='error', error='goto-cc: ' + (out + err)[-1500:])
         return res
+    rep = REPLACE.get(unit.container, {}).get(unit.short)
+    if rep:
+        # a callee outside route U is replaced by its (assumed) contract: a stub function of the harness file
+        gb2 = gb + '.r.gb'
+        rc, out, err, _ = engine.run(['goto-instrument'] + [x for r in rep for x in ('--replace-calls', r)] + [gb, gb2], timeout=120)
+        try:
+            os.remove(gb)
+        except OSError:
+            pass
+        if rc != 0:
+            res.update(status='error', error='goto-instrument --replace-calls: ' + (out + err)[-1500:])
+            return res
+        res['replaced'] = list(rep)
+        gb = gb2
     cmd3 = ['cbmc', gb, '--z3', '--nondet-static', '--no-pointer-check', '--no-standard-checks', '--unwind', '26', '--unwinding-assertions', '--json-ui'] + (['--trace'] if want_trace else [])
     t0 = time.time()
     rc, out, err, secs = engine.run(cmd3, timeout=unit.timeout, mem_kb=24000000)
@@ -105,7 +122,7 @@ def run_u(unit, want_trace=False):
         m = re.search(r'\[((?:C\d+\s*)+)\]', desc)
         if 'vacuity sentinel' in desc:
             o = dict(base, id=unit.id + '/vacuity', kind='vacuity', tags=[])
-        elif desc.startswith('model bound') or 'unwinding assertion' in desc:
+        elif desc.startswith('model bound') or desc.startswith('spec sanity') or 'unwinding assertion' in desc:
             o = dict(base, id=unit.id + '/bound:' + prop, kind='spec-sanity', tags=[])
         elif desc.startswith('U ') and m:
             o = dict(base, id='%s/%s' % (unit.id, desc.split(' [')[0].split(': ', 1)[1][:70]), kind='postcondition-U', tags=m.group(1).split(), expr=desc)
